@@ -71,6 +71,10 @@ VOC = {
                 titles=["сведения", "данные"]),
     "sep": dict(words=["top\u2028bottom", "a\u0085b", "x\u2028\u0085y", "left\u2028 right", "p\u0085 q"],
                 units=["degC", "us"], mnems=["AAX", "BBX", "CCX", "DDX"], titles=["info", "block"]),
+    # characters whose UTF-16 / UTF-32 code units contain the BYTES 0x0D or 0x0A (U+010D, U+010A, U+040D, U+1E0D, U+0A0A, U+0D0A):
+    # a reader that looks for line ends before decoding would cut them
+    "nlbyte": dict(words=["Pe\u010darovci", "\u010aentru", "\u040d\u0445", "\u1e0damma", "\u0a0a\u0a20", "\u0d0a\u0d1e"],
+                   units=["\u010d", "\u1e0d"], mnems=["\u010cA", "AAX", "B\u040d"], titles=["\u010dlanek", "\u1e0d"]),
     "astral": dict(words=["\U0001d6d1log", "井\U0002000b戸", "oil\U0001f6e2rig", "\U0001d400\U0001d401"],
                    units=["\U0001d6c0m", "µ\U0001d6d1"], mnems=["\U0001d406\U0001d411", "X\U0002000b", "AAX"],
                    titles=["\U0001f6e2", "井\U0002000b"]),
@@ -747,7 +751,7 @@ def align_shift(spec, enc, eol, what):
 def matrix_specs(tier):
     specs = []
     full = "VWCPXO"
-    for cs in ("latin", "cyr", "sep", "astral", "win", "ascii"):
+    for cs in ("latin", "cyr", "sep", "astral", "win", "nlbyte", "ascii"):
         specs.append({"cs": cs, "secs": full, "nrows": 5, "ncur": 4, "data": "plain", "v": 0})
         specs.append({"cs": cs, "secs": full, "nrows": 40, "ncur": 3, "data": "plain", "v": 1, "pad": ["mid", 150]})
         specs.append({"cs": cs, "secs": "VWCOPX", "nrows": 6, "ncur": 2, "data": "runon", "v": 2, "final_nl": False})
@@ -761,7 +765,7 @@ def matrix_specs(tier):
         if sh is not None:
             specs.append(dict(s, shift=sh))
     if tier == "thorough":
-        for cs in ("latin", "cyr", "sep", "astral", "win"):
+        for cs in ("latin", "cyr", "sep", "astral", "win", "nlbyte"):
             for secs in ("", "V", "W", "C", "P", "O", "X", "VW", "WC", "VWC", "VWCP", "OVWCP", "XOPCWV"):
                 for data in ("plain", "neg", "runon"):
                     if data == "neg" and "C" not in secs:
